@@ -69,7 +69,9 @@ func (t *Type) Field(name string) *Field {
 }
 
 func (t *Type) IsEntity() bool { return len(t.Keys) > 0 }
-func (t *Type) IsRoot() bool   { return t.Name == "Query" || t.Name == "Mutation" || t.Name == "Subscription" }
+func (t *Type) IsRoot() bool {
+	return t.Name == "Query" || t.Name == "Mutation" || t.Name == "Subscription"
+}
 
 // NamedType strips list / non-null wrappers.
 func NamedType(t string) string {
@@ -149,13 +151,79 @@ func (s *Supergraph) Distributable() []FieldRef {
 // Layout assigns every distributable field to a subgraph and switches optional
 // federation edges on.
 type Layout struct {
-	S         *Supergraph
-	N         int               // number of subgraphs
-	Owner     map[FieldRef]int  // distributable field -> subgraph
-	Provides  map[FieldRef]bool // use Field.Provides of this field
-	Shared    map[FieldRef][]int // additional owners of a (shareable) field
-	Unresolv  map[string][]int  // entity type -> subgraphs that declare it with resolvable:false keys
-	Name      string
+	S        *Supergraph
+	N        int               // number of subgraphs
+	Owner    map[FieldRef]int  // distributable field -> subgraph
+	Provides map[FieldRef]bool // use Field.Provides of this field
+	// ProvidesSel overrides the text of Field.Provides for a switched-on edge.
+	ProvidesSel map[FieldRef]string
+	Shared      map[FieldRef][]int // additional owners of a (shareable) field
+	Unresolv    map[string][]int   // entity type -> subgraphs that declare it with resolvable:false keys
+	// KeyUse: entity type -> subgraph -> how that subgraph declares the entity's
+	// keys (nil / missing: every key of the type, every member resolved there).
+	KeyUse map[string]map[int]*KeyUse
+	Name   string
+}
+
+// KeyUse describes the keys of one entity in one subgraph: the kinds of keys the
+// planner documents in plan/key_fields_visitor.go (explicit source/target keys,
+// explicit conditional keys whose members are @external, several keys per type,
+// compound keys, a different subset of the keys in every subgraph).
+type KeyUse struct {
+	Keys     []string `json:"keys"`     // key selections declared here (a subset of the type's keys)
+	External []string `json:"external"` // members of the declared keys that are @external here: such a key is a jump target only
+	Own      []string `json:"own"`      // key-flagged fields resolved here although no key declared here mentions them
+}
+
+func (l *Layout) keyUse(typeName string, sg int) *KeyUse {
+	if l.KeyUse == nil || l.KeyUse[typeName] == nil {
+		return nil
+	}
+	return l.KeyUse[typeName][sg]
+}
+
+// SetKeyUse registers the key declaration of one entity in one subgraph.
+func (l *Layout) SetKeyUse(typeName string, sg int, ku *KeyUse) {
+	if l.KeyUse == nil {
+		l.KeyUse = map[string]map[int]*KeyUse{}
+	}
+	if l.KeyUse[typeName] == nil {
+		l.KeyUse[typeName] = map[int]*KeyUse{}
+	}
+	l.KeyUse[typeName][sg] = ku
+}
+
+func has(list []string, x string) bool {
+	for _, y := range list {
+		if y == x {
+			return true
+		}
+	}
+	return false
+}
+
+// providesSel: the @provides selection of field f in this layout ("" = none).
+func (l *Layout) providesSel(t *Type, f *Field) string {
+	r := FieldRef{t.Name, f.Name}
+	if !l.Provides[r] {
+		return ""
+	}
+	if o := l.ProvidesSel[r]; o != "" {
+		return o
+	}
+	return f.Provides
+}
+
+// declaredKeys: the key selections subgraph sg declares for entity t.
+func (l *Layout) declaredKeys(t *Type, sg int) []string {
+	if ku := l.keyUse(t.Name, sg); ku != nil {
+		return ku.Keys
+	}
+	out := make([]string, len(t.Keys))
+	for i, k := range t.Keys {
+		out[i] = k.Fields
+	}
+	return out
 }
 
 func (l *Layout) owners(r FieldRef) []int {
@@ -179,6 +247,9 @@ type Subgraph struct {
 	Index int
 	Name  string
 	SDL   string // annotated with @key / @external / @requires / @provides / @shareable
+	// ExternalKeyFields ("Type.field"): key members declared @external on a plain
+	// (non-extension) type: really not resolvable here, the key is a target only.
+	ExternalKeyFields []string
 }
 
 const fedDirectives = `
@@ -214,6 +285,13 @@ func (l *Layout) Subgraphs() []Subgraph {
 	out := make([]Subgraph, l.N)
 	for sg := 0; sg < l.N; sg++ {
 		out[sg] = Subgraph{Index: sg, Name: fmt.Sprintf("sg%d", sg), SDL: l.subgraphSDL(sg)}
+		for _, t := range l.S.Types {
+			if ku := l.keyUse(t.Name, sg); ku != nil && strings.Contains(out[sg].SDL, "type "+t.Name+" ") {
+				for _, fn := range ku.External {
+					out[sg].ExternalKeyFields = append(out[sg].ExternalKeyFields, t.Name+"."+fn)
+				}
+			}
+		}
 	}
 	return out
 }
@@ -240,8 +318,18 @@ func (l *Layout) subgraphSDL(sg int) string {
 	seen := map[string]bool{}
 	addEntityStub := func(t *Type) {
 		u := get(t.Name)
-		for _, k := range t.Keys {
-			for _, fn := range selectionFieldNames(k.Fields) {
+		ku := l.keyUse(t.Name, sg)
+		for _, k := range l.declaredKeys(t, sg) {
+			for _, fn := range selectionFieldNames(k) {
+				if ku != nil && has(ku.External, fn) {
+					u.external[fn] = true
+				} else {
+					u.owned[fn] = true
+				}
+			}
+		}
+		if ku != nil {
+			for _, fn := range ku.Own {
 				u.owned[fn] = true
 			}
 		}
@@ -252,11 +340,11 @@ func (l *Layout) subgraphSDL(sg int) string {
 		for _, a := range f.Args {
 			reach(NamedType(a.Type))
 		}
-		if f.Provides != "" && l.Provides[FieldRef{t.Name, f.Name}] {
-			get(t.Name).provides[f.Name] = f.Provides
+		if psel := l.providesSel(t, f); psel != "" {
+			get(t.Name).provides[f.Name] = psel
 			target := s.Type(NamedType(f.Type))
 			tu := get(target.Name)
-			for _, fn := range selectionFieldNames(f.Provides) {
+			for _, fn := range selectionFieldNames(psel) {
 				tu.external[fn] = true
 				if tf := target.Field(fn); tf != nil {
 					reach(NamedType(tf.Type))
@@ -277,8 +365,8 @@ func (l *Layout) subgraphSDL(sg int) string {
 		case "object":
 			if t.IsEntity() {
 				addEntityStub(t)
-				for _, k := range t.Keys {
-					for _, fn := range selectionFieldNames(k.Fields) {
+				for _, k := range l.declaredKeys(t, sg) {
+					for _, fn := range selectionFieldNames(k) {
 						reachField(t, t.Field(fn))
 					}
 				}
@@ -390,11 +478,11 @@ func (l *Layout) subgraphSDL(sg int) string {
 				sb.WriteString(" implements " + strings.Join(impl, " & "))
 			}
 			if t.Kind == "object" && t.IsEntity() {
-				for _, k := range t.Keys {
+				for _, k := range l.declaredKeys(&t, sg) {
 					if unresolvable(t.Name) {
-						sb.WriteString(fmt.Sprintf(" @key(fields: %q, resolvable: false)", k.Fields))
+						sb.WriteString(fmt.Sprintf(" @key(fields: %q, resolvable: false)", k))
 					} else {
-						sb.WriteString(fmt.Sprintf(" @key(fields: %q)", k.Fields))
+						sb.WriteString(fmt.Sprintf(" @key(fields: %q)", k))
 					}
 				}
 			}
